@@ -35,6 +35,14 @@ class BudgetExceeded(EngineSignal):
 
 import os
 SLOWQ = float(os.environ.get("PYSYM_SLOWQ", "0") or 0)
+FORKSITES = {} if os.environ.get("PYSYM_FORKSITES") else None
+
+
+def _site(tag, n):
+    import traceback
+    st = [l for l in traceback.extract_stack(limit=30) if "engine.py" not in l.filename and "interp.py" not in l.filename]
+    key = tag + " " + " < ".join("%s:%d" % (l.filename.split("/")[-1], l.lineno) for l in reversed(st[-4:]))
+    FORKSITES[key] = FORKSITES.get(key, 0) + n
 _tls = threading.local()
 
 
@@ -175,6 +183,11 @@ class Engine:
             if t and f:
                 d = True
                 self.res.pending.append(self.trace + [False])
+                if FORKSITES is not None:
+                    import traceback
+                    st = [l for l in traceback.extract_stack(limit=25) if "engine.py" not in l.filename]
+                    key = " < ".join("%s:%d" % (l.filename.split("/")[-1], l.lineno) for l in reversed(st[-4:]) if "interp.py" not in l.filename)
+                    FORKSITES[key] = FORKSITES.get(key, 0) + 1
             elif t:
                 d = True
             else:
@@ -196,6 +209,8 @@ class Engine:
             d = feas[0]
             for i in feas[1:]:
                 self.res.pending.append(self.trace + [i])
+            if FORKSITES is not None and len(feas) > 1:
+                _site("fork%d" % len(feas), len(feas) - 1)
         self.pos += 1
         self.trace.append(d)
         self.add(conds[d])
@@ -238,6 +253,8 @@ class Engine:
             self.solver.pop()
         for w in others:
             self.res.pending.append(self.trace + [w])
+        if FORKSITES is not None and others:
+            _site("concretize", len(others))
         self.pos += 1
         self.trace.append(v)
         self.add(term == v)
